@@ -579,7 +579,7 @@ def worlds_stream(tier, rng):
     yield world_lin(rng)
     yield world_pair(rng, third=True)
     yield world_twins(rng)
-    k = 260 if quick else 2500
+    k = 170 if quick else 1100
     for _ in range(k):
         r = rng.random()
         if r < 0.1:
@@ -961,7 +961,7 @@ class Img(_Base):
 
     def worlds(self, tier, rng):
         quick = tier == "quick"
-        for _ in range(160 if quick else 1500):
+        for _ in range(110 if quick else 800):
             r = rng.random()
             if r < 0.15:
                 yield world_self(rng, rng.randint(2, 3))
@@ -1073,4 +1073,13 @@ PROP = Property(
     title="A fixed-resolution buffer equals nearest-pixel resampling through the links",
     theorems=["C16.rne_nearest", "C16.nearest_candidates", "C16.nearest_unique_off_ties", "C16.frb_pointwise", "C16.frb_accepted", "C16.frb_defined_iff", "C16.frb_answer_accepted", "C16.frb_indep_irrelevant_scalar", "C16.wildcard_key_exact", "C16.frb_indep_irrelevant_scalars", "C16.dimensions_correct", "C16.world_leaf_wf", "C16.w2p_node_wf", "C16.cache_step_sound", "C16.cache_sound", "C16.cache_sound_from", "C16.slice_to_bound_positions", "C16.sliced_request_denotes", "C16.selection_edited_in_place_stale", "C16.data_changed_in_place_stale", "C16.slice_to_bound_pinned_wrong"],
     families=[Single(), Seq(), Img()],
+    trusted_base=["numpy linspace / meshgrid / round (half-to-even) / broadcasting / unbroadcast / fancy indexing are modelled by value (Model/C16FRB.lean); exact on the dyadic inputs generated",
+                  "LinkManager.discover_links is not modelled: the harness derives the translate_pixel recursion trees with a port of the same loop and discards worlds whose result depends on set iteration order",
+                  "C15 coordinate model (Model/Coords.lean) for world-coordinate leaves and world->pixel link nodes"],
+    assumptions=["datasets <= 3, <= 3-d, sides <= 4; links: LinkSame on pixel ids, a*x+b with a in {+-1, +-2, +-1/2}, two-input affine links, LinkSame on all world axes of two AffineCoordinates datasets (dyadic, permuted, optionally a coupled block), chains over a third dataset",
+                 "request targets: main / pixel components of the requested dataset, components of another or of no dataset (-> IncompatibleAttribute), selection objects over the requested dataset's components and dataset-independent ElementSubsetStates; pixel components / pixel-range selections of ANOTHER linked dataset (derivable through links) are not modelled and not generated",
+                 "no dask components; bounds passed as a list; unique component uuids (no session-restored duplicates)",
+                 "in-place changes of component arrays between requests are outside the property (for unchanged data): cached requests after such a change are compared with the model only"],
+    rule="worlds: structured (every target/source ndim pair x link kind, wcs n=1..3, coupled, chains, twins) + seeded random; per world: the whole reference grid and seeded bounds per dataset pair (frb), 4-8 random histories + one-component collision probes + finding strata (seq), 3-6 layer states with 1-7 get_sliced_data calls (img); non-trivial = source != reference and an array returned (frb), history of >= 3 operations (seq), at least one image returned (img)",
+    partial_note="cache_sound needs unchanged selection objects: an in-place edited selection under the same cache id returns the stale buffer (F15, known); everything else is proved without restriction on the repaired tree",
 )
